@@ -3,7 +3,7 @@ From Coq Require Import List Arith.
 Import ListNotations.
 From Exmex.Model Require Import Base EvalBinary Lexer Flat Deep Convert Calc.
 From Exmex.Spec Require Import RefSem.
-From Exmex.Proofs Require Import DeepSem DeepSubs C11Main DeepOps.
+From Exmex.Proofs Require Import DeepSem DeepSubs C11Main DeepOps ConvertCompose FlatCalc.
 Open Scope nat_scope.
 
 (* 1. Binary application by name on DEEP expressions is a homomorphism: for every table, every binary operator name and
@@ -42,11 +42,51 @@ Theorem C10_deep_unary_application_is_a_homomorphism :
     exists v va, eval_deep C e vals = Ok v /\ eval_deep C a vals = Ok va /\ R v (unf C k va).
 Proof. exact @operate_unary_eval. Qed.
 
-(* 3. applying an unknown operator name is an error, for every table, data type and operands; applying a name that
+(* 3. The same on FLAT expressions, as Calculate::operate_binary / operate_unary do it: convert both operands to the
+   deep form, apply, convert back.  For flat expressions the conversions accept (flat_ok: what the flat parser builds
+   from any accepted token list, and what these operations return) the pipeline succeeds, the result is flat_ok again
+   (so any finite sequence of applications stays inside the theorem), its variable list is the sorted union, and its
+   value at every assignment is the operator applied to the operands' values. *)
+Theorem C10_flat_binary_application_is_a_homomorphism :
+  forall (D : Type) (C : carrier D) (tb : optable), wf_table tb = true ->
+  forall (R : D -> D -> Prop),
+  (forall a, R a a) -> (forall a b, R a b -> R b a) -> (forall a b c, R a b -> R b c -> R a c) ->
+  (forall k a a' b b', R a a' -> R b b' -> R (binf C k a b) (binf C k a' b')) ->
+  (forall k a a', R a a' -> R (unf C k a) (unf C k a')) ->
+  (forall k, comm_of tb k = true -> forall a b c, R (binf C k (binf C k a b) c) (binf C k a (binf C k b c))) ->
+  forall (fa fb : flatex D) (name : str) (k : nat),
+  find_op name tb 0 = Some k -> is_bin tb k = true -> flat_ok C tb fa -> flat_ok C tb fb ->
+  let all := sort_strs (fvars fa ++ fvars fb) in
+  exists da db r fx,
+    to_deepex C tb true fa = Ok da /\ to_deepex C tb true fb = Ok db /\ operate_bin C tb da db name = Ok r /\
+    from_deepex C tb true r = Ok fx /\ flat_ok C tb fx /\ fvars fx = all /\
+    forall vals', length vals' = length all ->
+    exists v va vb, eval_flat C fx vals' = Ok v /\
+                    eval_flat C fa (map (env_of C all vals') (fvars fa)) = Ok va /\
+                    eval_flat C fb (map (env_of C all vals') (fvars fb)) = Ok vb /\ R v (binf C k va vb).
+Proof. exact @flat_operate_binary. Qed.
+
+Theorem C10_flat_unary_application_is_a_homomorphism :
+  forall (D : Type) (C : carrier D) (tb : optable), wf_table tb = true ->
+  forall (R : D -> D -> Prop),
+  (forall a, R a a) -> (forall a b, R a b -> R b a) -> (forall a b c, R a b -> R b c -> R a c) ->
+  (forall k a a' b b', R a a' -> R b b' -> R (binf C k a b) (binf C k a' b')) ->
+  (forall k a a', R a a' -> R (unf C k a) (unf C k a')) ->
+  (forall k, comm_of tb k = true -> forall a b c, R (binf C k (binf C k a b) c) (binf C k a (binf C k b c))) ->
+  forall (fa : flatex D) (name : str) (k : nat),
+  find_op name tb 0 = Some k -> has_un tb k = true -> flat_ok C tb fa ->
+  exists da r fx,
+    to_deepex C tb true fa = Ok da /\ operate_unary C tb da name = Ok r /\ from_deepex C tb true r = Ok fx /\
+    flat_ok C tb fx /\ fvars fx = fvars fa /\
+    forall vals, length vals = length (fvars fa) ->
+    exists v va, eval_flat C fx vals = Ok v /\ eval_flat C fa vals = Ok va /\ R v (unf C k va).
+Proof. exact @flat_operate_unary. Qed.
+
+(* 4. applying an unknown operator name is an error, for every table, data type and operands; applying a name that
    exists but has no unary function is an error too.
    Outside these theorems (covered by the correspondence: histories of applications against the reference interpreter;
-   arithmetic histories against the unsimplified form): the same operations on FLAT expressions (which convert to the
-   deep form and back) and the soundness of the neutral-element shortcuts of + - * / pow. *)
+   arithmetic histories against the unsimplified form): the soundness of the neutral-element shortcuts of + - * / pow
+   and the named helper methods built on them. *)
 Theorem C10_unknown_binary_name_is_error_partial :
   forall (D : Type) (C : carrier D) (tb : optable) (a b : deepex D) (name : str),
   find_op name tb 0 = None -> operate_bin C tb a b name = Err E_UNKNOWNOP.
@@ -62,4 +102,6 @@ Proof. intros D C tb a name k H Hu. unfold operate_unary. rewrite H, Hu. reflexi
 
 Print Assumptions C10_deep_binary_application_is_a_homomorphism.
 Print Assumptions C10_deep_unary_application_is_a_homomorphism.
+Print Assumptions C10_flat_binary_application_is_a_homomorphism.
+Print Assumptions C10_flat_unary_application_is_a_homomorphism.
 Print Assumptions C10_unknown_binary_name_is_error_partial.
